@@ -620,7 +620,11 @@ func (g *Gen) swapTrade(ctx sdk.Context) *TxSpec {
 	if !amtOut.IsPositive() || amtOut.GTE(out.Amount) {
 		amtOut = sdk.OneInt()
 	}
-	expIn := amtOut.Mul(in.Amount).Quo(out.Amount.Sub(amtOut)).AddRaw(1)
+	den := out.Amount.Sub(amtOut)
+	if !den.IsPositive() { // a pool holding a single unit of the output token: nothing can be bought from it
+		return g.swapDeposit(ctx)
+	}
+	expIn := amtOut.Mul(in.Amount).Quo(den).AddRaw(1)
 	msg := swaptypes.NewMsgSwapForExactTokens(u.Addr.String(), sdk.NewCoin(in.Denom, expIn), sdk.NewCoin(out.Denom, amtOut), d(slip), ctx.BlockTime().Unix()+50)
 	return one("swap.forExact", u, msg, fmt.Sprintf("%s -> %s%s", in.Denom, amtOut, out.Denom))
 }
